@@ -12,9 +12,9 @@ from __future__ import annotations
 import ast
 import itertools
 import posixpath
-from typing import Dict, List, Optional, Tuple
+from typing import Dict, List, Tuple
 
-from ..mainmodel import Outcome, World, VFS, parse_human, parse_json, plan_of, run_main
+from ..mainmodel import Outcome, World, parse_human, parse_json, plan_of, run_main
 from ..minieval import ClassRef, Obj, Unsupported
 from ..model import AnalysisError, text
 from ..xeval import Raised, XEvaluator, Module
